@@ -98,7 +98,8 @@ type Prediction struct {
 	// Discard != "" means the case is dropped before the real run (and the history ends, the model state being
 	// unusable): "divergent" the script does not terminate within the step budget; "fire-short" an always-fires timeout
 	// would race with a short-circuit beneath it; "grey" a breaker time-window decision falls in the grey zone (L4);
-	// "tainted" a breaker admission the property leaves open (L3)
+	// "tainted" a breaker admission the property leaves open (L3); "fire-before-function" (set after the real run) an
+	// always-fires Timeout fired before the function beneath it was even entered
 	Discard string
 	Lenient string // "", "L1", "L5": the statement leaves this execution's continuation open; only weak checks apply
 	Actions map[string]int
